@@ -49,6 +49,9 @@ def conformance(tier):
         dict(name="native:c13", argv=["suite.py", "c13_search"], violation_on_fail=True),
         # a method declared on the plain class `type` (bare, as a string, Annotated) applies to class-valued arguments
         dict(name="native:c14", argv=["c14_types.py"], violation_on_fail=True),
+        # "a method declared on T is applicable" presupposes that the function asked knows the method: methods registered on a
+        # parent after a linked copy / variant was first used (bounded cross-check; the contracts are C05's / C16's)
+        dict(name="native:c13linked", argv=["c13_linked.py"], violation_on_fail=True),
     ]
     return steps
 
